@@ -234,3 +234,41 @@ class MuxPeer(_ServerBase):
     """Adversarial / arbitrary frame from the peer."""
     conn.feed(mux_frame(mtype, tag, body), mark={'mtype': mtype, 'tag': tag})
     self.net._log('srv_rawframe', conn, mtype=mtype, tag=tag)
+
+
+class KafkaPeer(_ServerBase):
+  """Kafka broker side of the framing only: [size][api key:2][version:2][correlation id:4][client id len:2]
+  [client id][payload]; replies are [size][correlation id:4][payload].  The payload of a test request is
+  its unique ASCII argument; the reply echoes it."""
+
+  def on_frame(self, conn, frame):
+    try:
+      api, ver, corr, cl = struct.unpack('!hhih', frame[:10])
+      client = frame[10:10 + cl]
+      payload = frame[10 + cl:]
+      ok = len(client) == cl
+    except Exception:
+      api, ver, corr, payload, ok = -1, -1, -1, b'', False
+    self.net._log('srv_frame', conn, mtype=2, tag=corr, n=len(payload))
+    arg = None
+    try:
+      arg = payload.decode('ascii')
+    except Exception:
+      ok = False
+    call = {'ok': ok, 'method': 'kafka', 'mtype': 1, 'arg': arg, 'seqid': corr}
+    p = self._record(conn, corr, call)
+    p.reply = ('echo:' + (arg or '')).encode('ascii')
+
+  def release(self, p, payload=None):
+    if p.answered or p.conn.closed:
+      return False
+    p.answered = True
+    body = struct.pack('!i', p.tag) + (payload if payload is not None else p.reply)
+    p.conn.feed(struct.pack('!i', len(body)) + body, mark={'mtype': -2, 'tag': p.tag})
+    self.net._log('srv_reply', p.conn, req=p.n, tag=p.tag)
+    return True
+
+  def send_frame(self, conn, mtype, tag, body=b''):
+    b = struct.pack('!i', tag) + body
+    conn.feed(struct.pack('!i', len(b)) + b, mark={'mtype': mtype, 'tag': tag})
+    self.net._log('srv_rawframe', conn, mtype=mtype, tag=tag)
